@@ -534,9 +534,7 @@ Section Theorems.
   Proof.
     unfold Inv. cbn [s_pc s_t s_added pcinv]. fold L0.
     pose proof (window_length L0) as [Hlt _]. fold lim in Hlt.
-    inv_split; try lia; try exact I; try discriminate.
-    - intros x Hx. lia.
-    - intros _. reflexivity.
+    inv_split; try lia; try exact I; try discriminate; try (intros x Hx; lia); try reflexivity.
   Qed.
 
   Lemma next_model_good : Good b off L0 lim (next_model b z t).
